@@ -286,6 +286,11 @@ class PDFXRefStream(PDFBaseXRef):
             (_, stream) = parser.nextobject()
         except PSEOF:
             raise PDFNoValidXRef("Unexpected EOF - file corrupted?")
+        except PDFException as e:
+            # e.g. the offset leads to some other stream whose /Length is an
+            # indirect object: it cannot be looked up before a
+            # cross-reference has been read
+            raise PDFNoValidXRef(f"Not a cross-reference stream: {e}")
         if not isinstance(stream, PDFStream) or stream.get("Type") is not LITERAL_XREF:
             raise PDFNoValidXRef("Invalid PDF stream spec.")
         try:
